@@ -111,7 +111,8 @@ def handleC15 (f : List String) : Res :=
           | some none => (cmp "calc-outcome" "err" outcome r, "model=calc")
           | some (some _) => (cmp "calc-outcome" "ok" outcome r, "model=calc")
         else (r, "model=none")
-      let r := specIf "no-panic" (outcome == "ok" || outcome == "err") r
+      let r := specIf "terminates-on-its-own" (outcome != "timeout") r
+      let r := specIf "no-panic" (outcome == "ok" || outcome == "err" || outcome == "timeout") r
       { r with nt := entry != "parse" || outcome == "ok", tag := s!"lib,entry={entry},out={outcome},{mtag}" }
   | _ => bad "c15-arity"
 
